@@ -54,6 +54,11 @@ CHECKS = {
     technique="TLA+ definition of HTTP/1.x heads, their wire lines and their meaning incl. the p0f observation (Http1.tla); TLC enumerates heads with expected reports; each head replayed with a fixed set of bodies through HttpProcessors::parse_request/parse_response",
     text="TLC enumerates request and response heads (16 methods x targets x versions, status lines, every header list up to a bounded length over pools with case variants and duplicates, optional-whitespace variants, cookie lists, referer, Accept-Language lists with q-values, 98-100 headers) and assigns the report; the real parser must return exactly that report for each head combined with each of eight bodies (empty, text, header-looking lines after a blank line, LF LF, all byte values, compressed-looking bytes, a second request, UTF-8), which also establishes body independence.",
     note="Trusted: TLC, Http1.tla, harness projection. Heads are ASCII/CRLF; language table restricted to four languages in the spec."),
+ "C09": dict(
+    level="model_checking", design="§5 C09",
+    technique="TLA+ reassembly machine on offsets (HttpReasm.tla) model-checked by TLC over all partitions x arrival orders x both directions (MC_C09); recorded per-segment outcomes of real connections (cuts, sequence origins incl. wrap, permutations) trace-validated by TLC (TV_C09)",
+    text="TLC explores every ordered partition of both directions' streams under every arrival order and interleaving and checks never-before-complete, at-most-once, reported-when-complete and never-garbled; real request/response pairs are then cut at byte positions, given initial sequence numbers from small values to within one stream length of 2^32, delivered in order, swapped and in seeded permutations with both directions interleaved (and with holes), and each connection's per-segment outcome - reported or not, identical to the one-shot result or not, in the right direction - is validated by TLC against the machine; differences are accepted only on the input classes of the two recorded defects.",
+    note="Trusted: TLC, HttpReasm.tla, the one-shot parse as reference (C05). No overlaps/retransmissions; HTTP/1.x messages."),
 }
 
 NOT_YET = {}
